@@ -11,6 +11,8 @@ type previewReader struct {
 	logger zerolog.Logger
 
 	PreviewImage []byte
+
+	chunk []byte // read buffer shared by every RenderPreview call of this reader
 }
 
 func NewPreviewReader(l zerolog.Logger) previewReader {
@@ -21,19 +23,21 @@ func NewPreviewReader(l zerolog.Logger) previewReader {
 }
 
 func (pr *previewReader) RenderPreview(r io.Reader, h meta.PreviewHeader) error {
-	// h.Size comes from the file: grow the image with the data actually
-	// delivered instead of allocating the stated size up front.
-	const maxSize = uint32(2048)
-	img := make([]byte, 0, maxSize)
+	// h.Size comes from the file: the image grows with the data actually
+	// delivered; nothing is allocated for bytes that never arrive.
+	if pr.chunk == nil {
+		pr.chunk = make([]byte, 2048)
+	}
+	chunk := pr.chunk
+	var img []byte
 	offset := uint32(0)
 	for offset < h.Size {
 		n := h.Size - offset
-		if n > maxSize {
-			n = maxSize
+		if n > uint32(len(chunk)) {
+			n = uint32(len(chunk))
 		}
-		img = append(img, make([]byte, n)...)
-		readLength, err := r.Read(img[offset : offset+n])
-		img = img[:offset+uint32(readLength)]
+		readLength, err := r.Read(chunk[:n])
+		img = append(img, chunk[:readLength]...)
 		if err != nil {
 			if err == io.EOF {
 				break
